@@ -68,6 +68,11 @@ def gen_scenario(rng, cfg):
                 if role.get("n", 0) > 70000:
                     big_ok = False
                 stages.append({"kind": "pup", "name": name, "role": role, "text": "pup " + name})
+                if rng.chance(8):
+                    # an argument that is a quoted or escaped operator character: still an argument
+                    spelled, plain = rng.choice([("'|'", "|"), ('"|"', "|"), ("'a|b'", "a|b"), ("';'", ";")])
+                    stages[-1]["text"] += " " + spelled
+                    stages[-1]["want_args"] = [plain]
             elif k < 90:
                 stages.append({"kind": "builtin", "text": rng.choice(BUILTINS)})
             elif k < 96:
@@ -111,6 +116,10 @@ def big_alias_lines():
     return out
 
 
+def big_alias_size():
+    return sum(len(l["text"]) + 1 for l in big_alias_lines())
+
+
 def big_builtin_scenarios():
     """a builtin with more output than a pipe holds, in front of readers that stop early or read everything"""
     out = []
@@ -130,6 +139,14 @@ def big_builtin_scenarios():
         lines = big_alias_lines() + [{"text": " | ".join(s["text"] for s in stages), "stages": stages, "probe": False}, q()]
         out.append({"prop": "C02", "lines": lines, "externals": [], "faults": {}, "config": "explicit_big_builtin",
                     "adversarial_picks": 50})
+        if rd[0][0] in ("k0", "f0"):
+            # the same with the builtin stage stopped and continued while it is blocked on the full pipe
+            # (its interrupted write returns a partial count)
+            import copy
+            sc = copy.deepcopy(out[-1])
+            sc["stall_builtin"] = True
+            sc["config"] = "explicit_big_builtin_stalled"
+            out.append(sc)
     return out
 
 
@@ -227,6 +244,11 @@ class C02Runner(Runner):
                 raise Violation("wiring_mismatch", "%s: stdin and stdout are the same pipe" % st.label())
         if obj(2) != shell0.get(2):
             raise Violation("wiring_mismatch", "%s: stderr is %s, the shell's is %s" % (st.label(), obj(2), shell0.get(2)))
+        if st.spec.get("want_args") is not None:
+            if st.pup.hello["argv"][2:] != st.spec["want_args"]:
+                raise Violation("wiring_mismatch", "%s received the arguments %r, the line gives it %r (a quoted operator "
+                                "character is an argument)" % (st.label(), st.pup.hello["argv"][2:], st.spec["want_args"]))
+            sim.probe("quoted_operator_character_as_argument")
         if line.get("probe"):
             prev_status = self.done_msgs[-1][1] if self.done_msgs else 0
             argv = st.pup.hello["argv"]
@@ -294,6 +316,14 @@ class C02Runner(Runner):
             sim.probe("last_stage_killed_by_signal")
         if any(s.kind != "pup" for s in stages[:-1]) and len(stages) > 1:
             sim.probe("builtin_or_failing_command_inside_pipeline")
+        if len(stages) == 2 and stages[0].kind == "builtin" and stages[0].spec["text"] == "alias" \
+                and stages[1].kind == "pup" and stages[1].role.get("t") == "sink" \
+                and sum(1 for l in self.sc["lines"][:self.line_no] if l.get("text", "").startswith("alias zz")) == 18:
+            # the sink read to end-of-file: it must have received the whole listing
+            if stages[1].read_total != big_alias_size():
+                raise Violation("stream_corrupt", "`alias | %s`: the reader got %d bytes of the %d the builtin prints" % (
+                    stages[1].spec["text"], stages[1].read_total, big_alias_size()))
+            sim.probe("big_builtin_output_fully_delivered")
         # order of termination
         if len(stages) >= 2 and any(getattr(s, "expect_term", None) for s in stages):
             pass
@@ -339,6 +369,8 @@ def make_case(seed, index):
             break
     sc = gen_scenario(rng, CONFIGS[name][0])
     sc["config"] = name
+    if name == "plain" and rng.chance(12):
+        sc["hostile_env"] = True
     sc["adversarial_picks"] = rng.choice([0, 5, 20, 60, 150, 400, 1000])
     return sc, rng
 
